@@ -89,6 +89,7 @@ type Conn struct {
 	registered  bool
 	started     bool
 	startupVer  byte // protocol version of the STARTUP frame of this connection
+	sysOK       int  // system-table queries answered on this connection
 	codec       frame.RawCodec
 	closed      bool
 }
@@ -118,6 +119,7 @@ type Backend struct {
 	HoldOptions    bool                // while set, OPTIONS (heartbeat) answers of started connections are withheld
 	heldOptions    []func()            // the withheld answers, in arrival order
 	HostPrepareErr map[string]*Outcome // per-host outcome of every PREPARE reaching that host (nil = accept)
+	FailSystem     int                 // the next FailSystem system-table queries are answered with SERVER_ERROR
 	UnpreparedWarn bool                // attach a warning to UNPREPARED answers (v4+)
 	StrictVersion  bool                // answer PROTOCOL_ERROR to frames whose version differs from the connection's STARTUP
 }
@@ -348,6 +350,69 @@ func (b *Backend) SetTopology(ns ...int) {
 		b.Topology = append(b.Topology, b.IP(n))
 	}
 	b.mu.Unlock()
+}
+
+// SetFailSystem makes the next n system-table queries fail.
+func (b *Backend) SetFailSystem(n int) {
+	b.mu.Lock()
+	b.FailSystem = n
+	b.mu.Unlock()
+}
+
+// ControlReady counts the connections that REGISTERed for events and then read both system tables.
+func (b *Backend) ControlReady() int {
+	n := 0
+	b.mu.Lock()
+	defer b.mu.Unlock()
+	for _, h := range b.Hosts {
+		h.mu.Lock()
+		for c := range h.conns {
+			if c.registered && c.sysOK >= 2 {
+				n++
+			}
+		}
+		h.mu.Unlock()
+	}
+	return n
+}
+
+// Registered counts the connections that REGISTERed for events, per host number.
+func (b *Backend) Registered() map[int]int {
+	out := map[int]int{}
+	b.mu.Lock()
+	defer b.mu.Unlock()
+	for ip, h := range b.Hosts {
+		h.mu.Lock()
+		for c := range h.conns {
+			if c.registered {
+				var n int
+				fmt.Sscanf(strings.TrimPrefix(ip, b.Prefix), "%d", &n)
+				out[n]++
+			}
+		}
+		h.mu.Unlock()
+	}
+	return out
+}
+
+// DropRegistered closes every connection that REGISTERed for events (the control connections).
+func (b *Backend) DropRegistered() int {
+	b.mu.Lock()
+	var targets []*Conn
+	for _, h := range b.Hosts {
+		h.mu.Lock()
+		for c := range h.conns {
+			if c.registered {
+				targets = append(targets, c)
+			}
+		}
+		h.mu.Unlock()
+	}
+	b.mu.Unlock()
+	for _, c := range targets {
+		c.close()
+	}
+	return len(targets)
 }
 
 // Event sends an event frame on every registered connection.
@@ -657,8 +722,17 @@ func (c *Conn) handle(hdr, body, raw []byte) bool {
 			rec.Kind = "system"
 			rec.Token = token
 			c.logRec(rec)
+			if be.FailSystem > 0 {
+				be.FailSystem--
+				be.mu.Unlock()
+				c.sendMsg(stream, &message.ServerError{ErrorMessage: "fb: system tables unavailable"})
+				return true
+			}
 			res := be.systemRows(c, strings.Contains(uq, "FROM SYSTEM.LOCAL"))
 			be.mu.Unlock()
+			c.host.mu.Lock()
+			c.sysOK++
+			c.host.mu.Unlock()
 			c.sendMsg(stream, res)
 			return true
 		}
